@@ -387,9 +387,21 @@ where
                     Ok(Some(actual_state)) => match actual_state {
                         IrqState::PreambleReceived => (),
                         IrqState::Done => {
-                            let received_len = self.radio_kind.get_rx_payload(packet_params, receiving_buffer).await?;
-                            let rx_pkt_status = self.radio_kind.get_rx_packet_status().await?;
-                            return Ok((received_len, rx_pkt_status));
+                            let result = match self.radio_kind.get_rx_payload(packet_params, receiving_buffer).await {
+                                Ok(received_len) => self
+                                    .radio_kind
+                                    .get_rx_packet_status()
+                                    .await
+                                    .map(|rx_pkt_status| (received_len, rx_pkt_status)),
+                                Err(err) => Err(err),
+                            };
+                            // a packet that cannot be handed over (e.g. a receiving buffer that is too
+                            // small) fails the operation like any other error: outside rx continuous
+                            // mode the reception is over and the chip is back in standby
+                            if result.is_err() && self.radio_mode != RadioMode::Receive(RxMode::Continuous) {
+                                self.radio_mode = RadioMode::Standby;
+                            }
+                            return result;
                         }
                     },
                     Ok(None) => (),
